@@ -221,7 +221,7 @@ Qed.
    [pend]: parts that the running transaction still has to attach with savePartRows
            (n_pre: reference already acquired; otherwise a fresh, still unregistered part);
    [orph]: part ids reported unreferenced whose bytes the transaction still has to delete.
-   Parameters: [strict] — also require that the store holds no orphans (sequential histories);
+   Section variables: [strict] — also require that the store holds no orphans (sequential histories);
    [D] — a set of dead ids that must stay dead; [n0] — a lower bound of next_id. *)
 Definition rc (s : mstate) (p : N) : N := rcr (registry s) p.
 
